@@ -114,7 +114,13 @@ def run(tier, seed):
         d = tempfile.mkdtemp(prefix='verif-c12-')
         try:
             pipeline.generate(comp, 'arduino', d, db_namespace='vdb', buf_sizes={z: 7 for z in comp.tzdb['zones_map']})
-            dumped = tabledump.dump(d, 'vdb', scope == 'extended')
+            try:
+                dumped = tabledump.dump(d, 'vdb', scope == 'extended')
+            except runner.Broken as e:
+                # the generated tables must compile with the compiler's default diagnostics (no -w, no -fpermissive)
+                m = re.search(r'error: ([^\n]*)', str(e))
+                rep.violation('c12:codec-%s:generated-tables-do-not-compile' % scope, {'first_error': m.group(1)[:200] if m else str(e)[-400:], 'compiler_output_tail': str(e)[-1200:]})
+                dumped = tabledump.dump(d, 'vdb', scope == 'extended', strict=False)
         finally:
             shutil.rmtree(d, ignore_errors=True)
         st = new_stats()
